@@ -140,6 +140,12 @@ func (lf *layoutFacts) checkDecVsSpec(p *Program, r *Result, rule string) {
 		}
 		prefixOK := k.Spec == "Attachment" // streaming: data and crc are read by the AttachmentReader
 		if d := layoutDiff(dec.toks, sp.Toks, aliasesFor(k.Spec), prefixOK); d != "" {
+			// widths and order agree with the table, only the mapping of values to result fields could not be traced
+			// (the values pass through an intermediate struct or a helper's results)
+			if hasUnnamed(dec.toks) && layoutDiff(blankNames(dec.toks), blankNames(sp.Toks), nil, prefixOK) == "" {
+				r.abstain(rule, fname, "layout of "+k.Spec, p.pos(dec.pos), "widths and order equal the table ("+layoutString(blankNames(dec.toks))+"); which result field each value reaches could not be traced")
+				continue
+			}
 			if why := lf.g.decoderBlind(findFuncDecl(lf.g, k.Decoder)); why != "" {
 				r.abstain(rule, fname, "layout of "+k.Spec, p.pos(dec.pos), "the decoder reads the record through a form the layout extractor does not model ("+why+")")
 				continue
@@ -428,4 +434,29 @@ func recvTypeName(g *goLayouts, d *ast.FuncDecl) string {
 		return ""
 	}
 	return nt.Obj().Name()
+}
+
+func hasUnnamed(toks []Tok) bool {
+	for _, t := range toks {
+		if t.Field == "_" || strings.Contains(t.Field, "(_)") || hasUnnamed(t.Sub) {
+			return true
+		}
+	}
+	return false
+}
+
+// blankNames keeps kinds and the role of a token (length prefix / value) and drops the field names.
+func blankNames(toks []Tok) []Tok {
+	out := make([]Tok, len(toks))
+	for i, t := range toks {
+		f := "x"
+		switch {
+		case strings.HasPrefix(t.Field, "#len("):
+			f = "#len(x)"
+		case strings.HasPrefix(t.Field, "#bytelen("):
+			f = "#bytelen(x)"
+		}
+		out[i] = Tok{Kind: t.Kind, Field: f, Sub: blankNames(t.Sub)}
+	}
+	return out
 }
